@@ -808,7 +808,7 @@ impl Engine for C10 {
             assumptions: vec![
                 "reduced form of the technique: sequential histories, the injected fault is a failing attempt; no scheduler, no clock",
                 "equality with the consensus cost is required only when every accepted attempt's declared cost was truthful",
-                "declared costs >= 2^62 are not generated",
+                "declared costs at the top of the u64 range are generated (2^63, 2^64-21 .. 2^64-1, 2^64-1-limit): sums are compared in u128 by the harness",
                 "the order of spends inside the generator is not constrained (multiset comparison)",
                 "allocation failure is not injected (Allocator::new() is constructed inside the builders)",
             ],
@@ -942,7 +942,14 @@ impl Engine for C10 {
                     1 => CostSpec::Land { delta: 1 },
                     2 => CostSpec::Land { delta: -(cost_per_byte as i64) },
                     3 => CostSpec::Land { delta: cost_per_byte as i64 },
-                    4 => CostSpec::Fixed(if rng.chance(1, 4) { 0 } else { rng.below(max_cost + max_cost / 4) }),
+                    4 => CostSpec::Fixed(if rng.chance(1, 4) {
+                        0
+                    } else if rng.chance(1, 6) {
+                        // declared costs at the top of the integer range: sums must not wrap
+                        *rng.pick(&[u64::MAX, u64::MAX - 19, u64::MAX - 20, u64::MAX - 21, 1 << 63, (1 << 63) - 1, u64::MAX - max_cost, u64::MAX - max_cost / 2])
+                    } else {
+                        rng.below(max_cost + max_cost / 4)
+                    }),
                     _ => CostSpec::Land { delta: -1 },
                 }
             } else {
